@@ -90,7 +90,9 @@ def run(R):
             nm += 1
             ex = R.executor(F)
             try:
-                res = R.run_entry(ex, rec)
+                # the frame property does not depend on the orientation: fix one to keep the drawing methods cheap
+                g = C.Geo(0, False)
+                res = R.run_entry(ex, rec, init_mem=C.display_init_mem(ex, F, rec, 0, False), assume=g.i_init())
             except E.Undecided as e:
                 R.undecided("C13-frame", "%s|%s|undecided" % (cfg, rec["pretty"]), str(e))
                 continue
